@@ -176,19 +176,17 @@ func (r *Ref) Enabled(maxH, nIDs int) []Event {
 		ht := r.Height(t)
 		// seen(t): every universe parent known, no conflict with a confirmed
 		// transaction; redelivery of a known transaction allowed.
+		// (a child may become known BEFORE its parent: mempool delivery is unordered, and a
+		// rescan for a new key finds old parents of transactions the wallet already has)
 		if !spec.Coinbase {
 			ok := ht != -2 || !r.confirmedConflict(t)
-			for _, p := range r.B.ParentOf[t] {
-				if p[0] >= 0 && !r.Known(p[0]) {
-					ok = false
-				}
-			}
 			if ok {
 				evs = append(evs, Event{Kind: "seen", T: t})
 			}
 		}
-		// abandon(t)
-		if ht == -1 {
+		// abandon(t): of an unconfirmed transaction, and (a no-op) of one the store does not
+		// hold - never seen, or already removed: the request is delivered twice
+		if ht == -1 || (ht == -2 && !spec.Coinbase) {
 			evs = append(evs, Event{Kind: "abandon", T: t})
 		}
 		// recredit(t): the credits of a known transaction are reported again
@@ -251,6 +249,10 @@ func (r *Ref) Apply(e Event) {
 	case "abandon":
 		if r.Unconf[e.T] {
 			r.forget(e.T)
+		} else if r.Height(e.T) == -2 {
+			// "remove this transaction and everything that depends on it" for a transaction
+			// the store does not hold: its known unconfirmed dependants go
+			r.forgetDescendants(e.T)
 		}
 	case "mine":
 		if r.Height(e.T) >= 0 {
